@@ -12,7 +12,7 @@ def check(pid, category, text, note, technique, design_ref, engine):
 
 
 check("C16", "model_checking",
-      "Explicit-state BFS over every reachable (protocol,command) counter state of both real implementations (12,480 states each, closure reached) in lock-step with a reference successor function; real threads on the threaded socket under a controlled scheduler, all schedules up to a pre-emption bound; every sequenced datagram of an async run (incl. a lossy phase) classified by range and checked to be the successor of the previous one of its kind (also on a re-connected spa object, after OS-reported send failures and on a really connected blocking client), every threaded call site classified by range; writer threads on the real blocking client (one value unencodable) under the scheduler.",
+      "Explicit-state BFS over every reachable (protocol,command) counter state of both real implementations (12,480 states each, closure reached) in lock-step with a reference successor function; real threads on the threaded socket under a controlled scheduler, all schedules up to a pre-emption bound; every sequenced datagram of an async run (incl. a lossy phase) classified by range and checked to be the successor of the previous one of its kind (also on a re-connected spa object, after OS-reported send failures, a refresh that loses a segment, plain-setter writes and on a really connected blocking client), every threaded call site classified by range; writer threads on the real blocking client (one value unencodable) under the scheduler.",
       "CPython GIL with switches at traced line/opcode boundaries only; counter method depends only on the two counters; request kinds = those the clients can emit in the scripted run / enumerated call sites.",
       "explicit-state BFS (closure) + pre-emption-bounded schedule enumeration of real threads", "DESIGN.md §2 C16", "E4+E5")
 
@@ -21,11 +21,11 @@ check("C01", "fault_enumeration",
       "One pattern block (neighbouring 39-byte slices differ, all byte values) with the complement as client block plus the delimiter blocks - beyond those the transfer code only slices and joins; delays shorter than the gap between transfers; virtual time.",
       "exhaustive fate-vector enumeration + deviation-bounded fault injection on the real transfer code", "DESIGN.md §2 C01", "E1+E2+E3")
 check("C05", "model_checking",
-      "All histories (stateless, fresh really-connected client per history) up to depth 3/4 over a 13-event alphabet of partial updates (0-3 records, overlapping/repeated positions, 1-byte record, back-to-back messages), refreshes served by the real simulator a partial update landing mid-refresh, bursts of 30..600 pending updates, messages of 4..255 records, positions in the configuration section, the same spa object connected twice, updates arriving while a request of the client's own is outstanding, and histories that BEGIN with a partial update inside the handshake (after every client datagram x delays); async and threaded clients; lock-step with a sequentially updated reference block; exactly one protocol-range STATQ per STATP.",
+      "All histories (stateless, fresh really-connected client per history) up to depth 3/4 over a 13-event alphabet of partial updates (0-3 records, overlapping/repeated positions, 1-byte record, back-to-back messages), refreshes served by the real simulator a partial update landing mid-refresh, bursts of 30..600 pending updates, messages of 4..255 records, positions in the configuration section, quiet periods of 5..35 minutes before every event, the same spa object connected twice, updates arriving while a request of the client's own is outstanding, and histories that BEGIN with a partial update inside the handshake (after every client datagram x delays); async and threaded clients; lock-step with a sequentially updated reference block; exactly one protocol-range STATQ per STATP.",
       "positions/values from a small set (handlers treat them opaquely); refresh window of the default snapshot's tables.",
       "exhaustive bounded-depth history enumeration against a reference model", "DESIGN.md §2 C05", "E1+E2")
 check("C06", "model_checking",
-      "Real protocol.get/lock/wait_for_response of a connected client: 1-3 concurrent callers (incl. the status-block request engine) x arrival offsets x retry counts, ALL reply-fate vectors {deliver,drop,late}, unsolicited noise near timeouts, reply latencies on a 50 ms grid inside the time-out, one caller cancelled by its client at every phase, the endpoint closing under the callers, a stalled event loop, background requests that lose their reply on the full stack, timer-order (polling jitter) and timer-batch deviations with a third caller swept over three polling periods; oracle on datagrams + wait intervals (attempts<=R, fresh request per attempt, one in flight, FIFO service, result iff reply, completion bound). Gates: every gated API invoked on a tick grid around (and long after) the moment the spa stops answering pings, in the idle and in the active configuration, and on a spa whose connection attempt failed at each handshake step.",
+      "Real protocol.get/lock/wait_for_response of a connected client: 1-3 concurrent callers (incl. the status-block request engine) x arrival offsets x retry counts, ALL reply-fate vectors {deliver,drop,late}, unsolicited noise near timeouts, reply latencies on a 50 ms grid inside the time-out and up to just under it with the call off the pollers' grid (a reply at the head of the queue before the waiter's last look is taken), one caller cancelled by its client at every phase, the endpoint closing under the callers, a stalled event loop, background requests that lose their reply on the full stack, timer-order (polling jitter) and timer-batch deviations with a third caller swept over three polling periods; oracle on datagrams + wait intervals (attempts<=R, fresh request per attempt, one in flight, FIFO service, result iff reply, completion bound). Gates: every gated API invoked on a tick grid around (and long after) the moment the spa stops answering pings, in the idle and in the active configuration, and on a spa whose connection attempt failed at each handshake step.",
       "wait intervals observed via a harness-installed wrapper of wait_for_response; virtual time; simulator as responder. The check-then-act gate defect is a recorded known finding.",
       "exhaustive fate-vector + bounded schedule-deviation exploration of the real request engine", "DESIGN.md §2 C06", "E1+E2+E3")
 check("C07", "model_checking",
@@ -38,11 +38,11 @@ check("C08", "model_checking",
       "environment injected at the discover/_connect seams (as tests/test_spaman.py does); light facade that fails exactly when the real constructor must; state canonicalisation documented in props/c08.py.",
       "explicit-state BFS over real objects (rebuild-and-replay) to closure, reference-table lock-step", "DESIGN.md §2 C08", "E4 on E1")
 check("C09", "fault_enumeration",
-      "Whole async stack against the real simulator in virtual time: fault scripts (start point x up to 3 phases from {blackout, RF-error, lossy(every 2nd request / STATU+CURCH / all pings), sends refused by the OS} x durations, connections made under loss followed by a long blackout, a user reset/set_spa_info after an outage from every start point, plain and yielding client handlers) and user reset/set_spa_info injected at EVERY loop step of the baseline connection (+ timer-order deviations); bounded liveness: CONNECTED within B virtual seconds of the network being healthy with the client block mirroring the spa, unreachable spa reported in time, sequence pump never ends.",
+      "Whole async stack against the real simulator in virtual time: fault scripts (start point x up to 3 phases from {blackout, RF-error, lossy(every 2nd request / STATU+CURCH / all pings), sends refused by the OS} x durations, connections made under loss followed by a long blackout, a user reset/set_spa_info after an outage from every start point, the spa moving to a new address that the user enters, plain and yielding client handlers) and user reset/set_spa_info injected at EVERY loop step of the baseline connection (+ timer-order deviations); bounded liveness: CONNECTED within B virtual seconds of the network being healthy with the client block mirroring the spa, unreachable spa reported in time, sequence pump never ends.",
       "bound derived from the idle GeckoConfig; network healthy for ever after the script; two recorded known findings (ERROR_SPA_NOT_FOUND terminal, reset in the last steps of a connection attempt).",
       "exhaustive crash-point injection + enumerated fault scripts on the real stack (bounded liveness)", "DESIGN.md §2 C09", "E1+E2+E3")
 check("C10", "fault_enumeration",
-      "Whole async stack: async_reset and context exit injected at every loop step through discovery/handshake/early steady state and a stride through the periodic tail, blackout and error states (+ first steps of every state, RF-error/slow-client, yielding-client, failed-send and corrupted-config-file baselines, the library's own ping-triggered resets, partial updates inside the teardown window, a per-connection cap on live SPA tasks/endpoints after every reset, the configuration table re-installed at every step of the handshake, timer deviations before the injection, reconnect cycles); every endpoint/task existing at the injection must be closed/done promptly, late datagrams to old endpoints must not reach client observers, resources must not grow over cycles.",
+      "Whole async stack: async_reset and context exit injected at every loop step through discovery/handshake/early steady state and a stride through the periodic tail, blackout and error states (+ first steps of every state, RF-error/slow-client, yielding-client, failed-send and corrupted-config-file baselines, the library's own ping-triggered resets, partial updates inside the teardown window, a per-connection cap on live SPA tasks/endpoints after every reset, the configuration table re-installed at every step of the handshake, user commands in flight (acknowledgements lost) at the injection, timer deviations before the injection, reconnect cycles); every endpoint/task existing at the injection must be closed/done promptly, late datagrams to old endpoints must not reach client observers, resources must not grow over cycles.",
       "endpoints = VTransports handed out by the harness loop; 'promptly' = 5 virtual s (12 s for a discovery legitimately in progress); known finding: context exit leaves the spa endpoint open.",
       "exhaustive crash-point injection with resource accounting on the real stack", "DESIGN.md §2 C10", "E1+E2+E3")
 check("C15", "model_checking",
@@ -50,7 +50,7 @@ check("C15", "model_checking",
       "responders answer every broadcast they hear; replies built by a reference encoder; a spa that lost only its first reply must be listed by a run that lasts the initial wait.",
       "exhaustive scenario enumeration + bounded schedule deviations on the real locator", "DESIGN.md §2 C15", "E1+E2+E3")
 check("C17", "model_checking",
-      "Real config_sleep/set_config_mode on the virtual loop: all switch sequences up to length 4 from the pristine and from a poisoned root (table completeness), up to 3 sleepers x delays x starts x up to 2 switches on a common time grid, looping sleepers, one sleeper cancelled in its sleep, with EVERY order of simultaneous timers and (deviation-bounded) asyncio's batching of simultaneous timers; real connected facades of 5 snapshot configurations through every on/off combination of pumps and blowers, and the table right after the facade's first update.",
+      "Real config_sleep/set_config_mode on the virtual loop: all switch sequences up to length 4 from the pristine and from a poisoned root (table completeness), up to 3 sleepers x delays x starts x up to 2 switches on a common time grid, looping sleepers, one sleeper cancelled in its sleep, with EVERY order of simultaneous timers and (deviation-bounded) asyncio's batching of simultaneous timers; real connected facades of 5 snapshot configurations through every on/off combination of pumps and blowers, the table right after the facade's first update and after a device change that lands while the facade's own update awaits its reply.",
       "a switch before any sleeper ever ran trips the library's own assert and is excluded; early wake-ups are not excluded by the statement and not reported.",
       "exhaustive enumeration of sleeper/switch plans with all tie orders (unbounded deviations)", "DESIGN.md §2 C17", "E1+E3")
 
@@ -83,7 +83,7 @@ check("C14", "exploration",
       "heater built on a stand-in facade over the real tables.",
       "exhaustive value-domain enumeration", "DESIGN.md §2 C14", "E6")
 check("C18", "exploration",
-      "Complete enumeration of the shipped table set (164 modules, ~20,500 items): geometry from the raw declarations (inside block, bit field inside bytes, labels representable), advertised keys resolve, module name/version/config-file naming round trip, item-by-item comparison with the layout pinned under /verif/pins, effective writability, both clients' real table lookup and requested refresh window for every platform x cfg x log and for versions no module declares, the published layouts on long-lived structures that carried other tables before, and the layout (labels, live writability) after both facades were built on the structure.",
+      "Complete enumeration of the shipped table set (164 modules, ~20,500 items): geometry from the raw declarations (inside block, bit field inside bytes, labels representable), advertised keys resolve, module name/version/config-file naming round trip, item-by-item comparison with the layout pinned under /verif/pins, effective writability, both clients' real table lookup and requested refresh window for every platform x cfg x log, for versions no module declares and for sibling platforms of one pack type looked up in one process, the published layouts on long-lived structures that carried other tables before, and the layout (labels, live writability) after both facades were built on the structure.",
       "finite configuration space enumerated completely, not behaviours; two table-data defects are recorded known findings.",
       "exhaustive enumeration of a finite table set + golden layout comparison", "DESIGN.md §2 C18", "E6")
 check("C19", "exploration",
